@@ -58,6 +58,11 @@ def scenarios(tier):
         # the remainder rule reads the minimum segment size while another thread changes it (and the discarded counter)
         sc.append(("minseg_race_" + kind, c, SETUP_ONESEG,
                    [[{"k": "setmin", "v": 40}, {"k": "incdisc", "v": 3}, DROP(2)], [AB(16), FILL(T1), VER(T1), DROP(T1)]], {"live": True}))
+    # two mappings of one file (as two processes would have): thread 1 works through its own map_mut of the path
+    for kind in kinds:
+        c = dict(es.conc_cfg(cap=232, kind=kind, minseg=8, retries=2, backend="file", unify=True), two_maps=True)
+        sc.append(("two_maps_" + kind, c, [AB(64), FILL(1), AB(72), FILL(2), AB(64), FILL(3), DROP(1)],
+                   [[AB(16), FILL(T0), VER(T0), DROP(T0)], [DROP(2), AB(24), FILL(T1), VER(T1)]], {"live": True}))
     # teardown: every thread owns an arena value and drops it itself; the last one unmounts the memory
     for kind in ["opt"]:
         c = es.conc_cfg(cap=200, kind=kind, minseg=8, retries=2, own_clones=True)
